@@ -43,7 +43,7 @@ func runC08(c *Ctx) {
 	r.Rule("O-1", "save and save-pipeline start: no flag-set collision that makes pflag panic; every flag read is registered with the type read")
 	r.Rule("O-2", "every input reaches the entry: args and flag values flow unchanged into distinct fields of the Command literal passed to saveToPersonalDatabase; Pipeline is true for save-pipeline")
 	r.Rule("O-3", "read-modify-write keeps the neighbours: the written slice is the unmarshalled slice with entry stored at an index guarded by equality of the command strings, or with entry appended; no other store, reslice, sort or rebuild; a failed read or parse never reaches the write")
-	r.Rule("O-4", "writer/reader symmetry: the same Go type is marshalled and unmarshalled; persisted fields have distinct yaml keys (none '-') that cover the shipped database's keys; cache fields are yaml:\"-\"")
+	r.Rule("O-4", "writer/reader symmetry: the same Go type is marshalled and unmarshalled; no type of the entry has a hand-written decoder without a hand-written encoder or the reverse; persisted fields have distinct yaml keys (none '-') that cover the shipped database's keys; cache fields are yaml:\"-\"")
 	r.Rule("O-5", "merge order and freshness: merged = main entries then notebook entries in a fresh Database followed by both index builds; the CLI passes main and personal paths in that order and saves to the personal path")
 
 	t := cliTree(c)
@@ -896,6 +896,72 @@ func c08Symmetry(c *Ctx) {
 		}
 		if !found {
 			r.Bad("O-4", "database.Command."+f+"#present", "", "persisted field is missing from the struct or not serialised")
+		}
+	}
+	// the codec is the library's own on both sides: a type of the entry with a
+	// hand-written decoder but the default encoder (or the reverse) reads back
+	// something else than was written (the default encoder tags strings that
+	// are not UTF-8 as !!binary, merges, anchors: a decoder that takes the
+	// node's text does not undo that)
+	{
+		var named []*types.Named
+		seenT := map[types.Type]bool{}
+		var collect func(t types.Type, d int)
+		collect = func(t types.Type, d int) {
+			if d > 6 || seenT[t] {
+				return
+			}
+			seenT[t] = true
+			if n, ok := t.(*types.Named); ok {
+				if n.Obj().Pkg() != nil && strings.HasPrefix(n.Obj().Pkg().Path(), load.ModulePath) {
+					named = append(named, n)
+				}
+			}
+			switch u := t.Underlying().(type) {
+			case *types.Pointer:
+				collect(u.Elem(), d+1)
+			case *types.Slice:
+				collect(u.Elem(), d+1)
+			case *types.Array:
+				collect(u.Elem(), d+1)
+			case *types.Map:
+				collect(u.Key(), d+1)
+				collect(u.Elem(), d+1)
+			case *types.Struct:
+				for i := 0; i < u.NumFields(); i++ {
+					if t.Underlying() == types.Type(st) && !persisted[u.Field(i).Name()] {
+						continue
+					}
+					collect(u.Field(i).Type(), d+1)
+				}
+			}
+		}
+		collect(pk.Types.Scope().Lookup("Command").Type(), 0)
+		for _, n := range named {
+			has := func(names ...string) string {
+				for _, t := range []types.Type{n, types.NewPointer(n)} {
+					ms := types.NewMethodSet(t)
+					for _, m := range names {
+						if ms.Lookup(n.Obj().Pkg(), m) != nil {
+							return m
+						}
+					}
+				}
+				return ""
+			}
+			dec := has("UnmarshalYAML", "UnmarshalText")
+			enc := has("MarshalYAML", "MarshalText")
+			key := "database." + n.Obj().Name() + "#codec"
+			switch {
+			case dec == "" && enc == "":
+				r.OK("O-4", key, c.P.Pos(n.Obj().Pos()), "written and read by the library's own codec")
+			case dec != "" && enc != "":
+				r.OK("O-4", key, c.P.Pos(n.Obj().Pos()), "hand-written "+enc+" and "+dec+" (that they invert each other is not decided)")
+			case dec != "":
+				r.Bad("O-4", key, c.P.Pos(n.Obj().Pos()), "the type is read by a hand-written "+dec+" but written by the library's encoder: what the encoder emits in a form of its own (a string that is not UTF-8 as !!binary base64, for one) is not read back as it was given")
+			default:
+				r.Bad("O-4", key, c.P.Pos(n.Obj().Pos()), "the type is written by a hand-written "+enc+" but read by the library's decoder: the saved entry is not read back as it was given")
+			}
 		}
 	}
 	// keys used by the shipped database must be known to the struct (KnownFields is off: unknown keys are dropped silently)
